@@ -180,7 +180,7 @@ def build_unwindset(ob, gb):
 
 
 def cbmc_cmd(ob, gb, trace=False, prop=None, entry=None):
-    cmd = ["cbmc", gb] + (["--function", entry] if entry else []) + ["--json-ui", "--verbosity", "8", "--unwinding-assertions", "--drop-unused-functions",
+    cmd = ["cbmc", gb] + (["--function", entry] if entry else []) + ["--json-ui", "--verbosity", ("4" if ob.n_entries else "8"), "--unwinding-assertions", "--drop-unused-functions",
            "--no-malloc-may-fail", "--no-pointer-primitive-check",
            "--no-signed-overflow-check", "--no-undefined-shift-check"]
     if ob.checks == "nopointer":
@@ -387,15 +387,51 @@ def run_obligation(ob, work, extra_defs=(), want_trace_for=None):
         entries = ["harness_%d" % i for i in range(ob.n_entries)] if ob.n_entries else [None]
         props, stats = [], None
         res["cbmc_s"] = 0.0
-        for ent in entries:
-            cmd = cbmc_cmd(ob, gb, entry=ent)
-            res["cmd"] = " ".join(cmd[:1] + ["<gb>"] + cmd[2:])
-            rc, out, errt, dt, to = run(cmd, timeout=ob.timeout, mem_gb=ob.mem_gb)
-            res["cbmc_s"] = round(res["cbmc_s"] + dt, 2)
+        outputs = []
+        if ob.n_entries:
+            # one shell loop runs all entry points (forking from this large multi-threaded process per entry is slow)
+            script = os.path.join(work, ob.name + ("-kf" if extra_defs else "") + "-run.sh")
+            base = cbmc_cmd(ob, gb, entry="@ENTRY@")
+            with open(script, "w") as f:
+                f.write("#!/bin/sh\nfor i in $(seq 0 %d); do\n" % (ob.n_entries - 1))
+                f.write("  timeout %d " % ob.timeout + " ".join("'%s'" % c for c in base).replace("@ENTRY@", "harness_$i").replace("'harness_$i'", "\"harness_$i\"") +
+                        " > '%s.out.'$i 2> '%s.err.'$i\n" % (gb, gb))
+                f.write("  echo $? > '%s.rc.'$i\ndone\n" % gb)
+            res["cmd"] = " ".join(base[:1] + ["<gb>"] + base[2:])
+            rc, out, errt, dt, to = run(["sh", script], timeout=ob.timeout * ob.n_entries + 60, mem_gb=ob.mem_gb)
+            res["cbmc_s"] = round(dt, 2)
             if to:
                 res["status"] = "timeout"
-                res["detail"] = "cbmc exceeded %ds%s" % (ob.timeout, (" in entry " + ent) if ent else "")
+                res["detail"] = "cbmc entry loop exceeded its budget"
                 return res
+            for i, ent in enumerate(entries):
+                try:
+                    o = open("%s.out.%d" % (gb, i)).read()
+                    e = open("%s.err.%d" % (gb, i)).read()
+                    r = int(open("%s.rc.%d" % (gb, i)).read().strip() or 0)
+                except Exception as ex:
+                    o, e, r = "", str(ex), -1
+                if r == 124:
+                    res["status"] = "timeout"
+                    res["detail"] = "cbmc exceeded %ds in entry %s" % (ob.timeout, ent)
+                    return res
+                outputs.append((ent, r, o, e))
+                for suffix in ("out", "err", "rc"):
+                    try:
+                        os.unlink("%s.%s.%d" % (gb, suffix, i))
+                    except OSError:
+                        pass
+        else:
+            cmd = cbmc_cmd(ob, gb)
+            res["cmd"] = " ".join(cmd[:1] + ["<gb>"] + cmd[2:])
+            rc, out, errt, dt, to = run(cmd, timeout=ob.timeout, mem_gb=ob.mem_gb)
+            res["cbmc_s"] = round(dt, 2)
+            if to:
+                res["status"] = "timeout"
+                res["detail"] = "cbmc exceeded %ds" % ob.timeout
+                return res
+            outputs.append((None, rc, out, errt))
+        for ent, rc, out, errt in outputs:
             eprops, msgs, estats = parse_cbmc(out)
             if estats.get("error") and not eprops:
                 res["stats"] = estats
@@ -404,10 +440,20 @@ def run_obligation(ob, work, extra_defs=(), want_trace_for=None):
                     res["status"] = "oom"
                 return res
             if not eprops:
-                res["detail"] = "cbmc produced no property results (rc=%s): %s" % (rc, (errt or out)[-800:])
+                res["detail"] = "cbmc produced no property results (rc=%s)%s: %s" % (rc, (" entry " + ent) if ent else "", (errt or out)[-800:])
                 return res
             for p in eprops:
                 p["entry"] = ent
+            if ob.n_entries:
+                # keep memory bounded: successful built-in checks are only counted
+                keep = []
+                for p in eprops:
+                    if p["status"] == "SUCCESS" and classify(p) in ("M", "O", "U"):
+                        res.setdefault("_ok_counts", {}).setdefault(classify(p), 0)
+                        res["_ok_counts"][classify(p)] += 1
+                    else:
+                        keep.append(p)
+                eprops = keep
             props += eprops
             if stats is None:
                 stats = estats
@@ -421,8 +467,8 @@ def run_obligation(ob, work, extra_defs=(), want_trace_for=None):
         by = {"P": [], "W": [], "U": [], "O": [], "A": [], "M": []}
         for p in props:
             by[classify(p)].append(p)
-        res["props"] = {k: len(v) for k, v in by.items()}
-        res["props_ok"] = {k: sum(1 for p in v if p["status"] == "SUCCESS") for k, v in by.items()}
+        res["props"] = {k: len(v) + res.get("_ok_counts", {}).get(k, 0) for k, v in by.items()}
+        res["props_ok"] = {k: sum(1 for p in v if p["status"] == "SUCCESS") + res.get("_ok_counts", {}).get(k, 0) for k, v in by.items()}
         allow = [re.compile(a) for a in ob.allow_fail]
         def allowed(p):
             return any(a.search(p["property"] or "") for a in allow)
